@@ -18,7 +18,9 @@ COMPONENTS = dict(
           "time_zone_format.cc, time_zone_if.cc, zone_info_source.cc, civil_time_detail.h", "glibc stdio buffering on top of the simulated file layer"],
     stubbed=["OS scheduler (seeded fiber scheduler)", "blocking on pthread mutexes (simulated owner table; the real lock is still taken)",
              "zone_info_source_factory / ZoneInfoSource (SimFactory/SimSource through cctz's own extension point)",
-             "fopen/fread/fseek/fclose backing store (fopencookie over an in-memory tree)", "getenv", "operator new byte budget (C12 only)"],
+             "fopen/fread/fseek/fclose backing store (fopencookie over an in-memory tree)", "getenv", "operator new byte budget (C12 only)",
+             "wall clock (clock_gettime/gettimeofday/time serve a simulated date; cctz reads none on the unchanged tree)",
+             "thread-local storage (one instance per task in the clang builds, via -femulated-tls)"],
 )
 
 ASSUME_COMMON = [
